@@ -29,6 +29,8 @@ def main():
             for j in range(M):
                 c = workloads.ensure_conn(s, c)
                 a = g.next()
+                if isinstance(a, tuple) and a[0] == 'sleep':
+                    import time as _t; _t.sleep(a[1] / 1000.0); continue
                 s.cmd(c, a)
                 if gname == 'ZSetGen' and a[0].upper() in workloads.ZMUT and len(a) > 1 and srv.alive():
                     res = srv.ctl.cmd('ZCHECK 0 ' + a[1].hex())
